@@ -49,8 +49,13 @@ def imec_rules(rep, prog):
         cond = resolve(conj(chain[0].path))
         ok = ("atom", ("param", "check_chain"), True) in cond and ("atom", call("is_chain_graph", A=PA_), True) in cond and \
             dict(chain[0].value[3]) == {"A": PA_, "I": PI} and dict(gen[0].value[3]).get("pdag") == call("dag_to_icpdag", G=PA_, I=PI)
-    rep.check("DISPATCH.imec", ok, fwhere(f), "chain shortcut chain_graph_IMEC(A, I) iff check_chain and is_chain_graph(A); else all_dags(dag_to_icpdag(A, I))",
-              "imec does not pass (A, I) to the chain shortcut / to dag_to_icpdag as documented")
+    if not (len(chain) == 1 and len(gen) == 1) and len(gen) == 1 and len(rets) == 2:
+        # the general path is there; the other return does not call chain_graph_IMEC (its filtering step reached some other way): not read
+        rep.unk("DISPATCH.imec", fwhere(f), "the chain-graph branch of imec does not return chain_graph_IMEC(A, I) itself: what it returns instead is not read")
+        ok = None
+    if ok is not None:
+      rep.check("DISPATCH.imec", ok, fwhere(f), "chain shortcut chain_graph_IMEC(A, I) iff check_chain and is_chain_graph(A); else all_dags(dag_to_icpdag(A, I))",
+                "imec does not pass (A, I) to the chain shortcut / to dag_to_icpdag as documented")
 
 
 def chain_rules(rep, prog):
@@ -114,6 +119,26 @@ def chain_rules(rep, prog):
                 if comp[3][0][1] == MECt and comp[2] == me and len(conds) == 1 and keeps(conds[0], me):
                     ok = True
                 why = "comprehension over %s" % fmt(comp[3][0][1])[:60]
+    if not ok and why == "filter loop not found":
+        # the whole class compared at once: MEC[(MEC[:, :, I] == A[:, I]).all(axis=(1, 2))]
+        def sel3(t_):
+            return t_[0] == "sub" and t_[1] == MECt and t_[2][0] == "tuple" and len(t_[2][1]) == 3 and t_[2][1][0] == FULL and t_[2][1][1] == FULL and col_sel(("sub", PA_, ("tuple", (FULL, t_[2][1][2]))), PA_) is not None
+        masks = []
+        for r in S.select("return", qname=q):
+            for x in walk(r.value):
+                if isinstance(x, tuple) and len(x) == 3 and x[0] == "sub" and x[1] == MECt and isinstance(x[2], tuple) and x[2][:1] == ("method",) and x[2][2] == "all":
+                    masks.append(x[2])
+        if len(masks) == 1:
+            m_ = masks[0]
+            ax = dict(m_[4]).get("axis", m_[3][0] if m_[3] else None)
+            cmp_ = m_[1]
+            good_axes = ax in (("tuple", (("const", 1), ("const", 2))), ("tuple", (("const", 2), ("const", 1))), ("tuple", (("const", -2), ("const", -1))), ("tuple", (("const", -1), ("const", -2))))
+            sides = (cmp_[2], cmp_[3]) if cmp_[0] == "cmp" and cmp_[1] == "==" else (None, None)
+            ok = good_axes and sides[0] is not None and ((sel3(sides[0]) and col_sel(sides[1], PA_) is not None) or (sel3(sides[1]) and col_sel(sides[0], PA_) is not None))
+            why = "vectorised filter %s" % fmt(m_)[:80]
+        else:
+            rep.unk("COLUMNS.chain-filter", fwhere(f), "the chain filter is not a loop / comprehension over the members of the class nor one vectorised comparison: not read")
+            return
     rep.check("COLUMNS.chain-filter", ok, fwhere(f), "a chain-MEC member is kept iff its columns I (the targets' parents) equal A's columns I",
               "chain filter is not `(me[:, I] == A[:, I]).all()`: " + why)
 
@@ -134,6 +159,11 @@ def icpdag_rules(rep, prog):
     ch_ = ("call", U + "ch", (i, PG), (("A", PG), ("i", i)))
     pa_ = ("call", U + "pa", (i, PG), (("A", PG), ("i", i)))
     names = list(first["init"])
+    if not (first["iter"] == PI and len(names) == 1 and first["init"][names[0]] == ("list", ())) and not any(second["init"][k] == call("dag_to_cpdag", G=PG) for k in second["init"]):
+        # neither the list of edges to fix nor the PDAG under construction is a local variable of these loops (e.g. both live in an object):
+        # the rules below have nothing to read
+        rep.unk("ORIENT.edges", fwhere(f, first["node"]), "the edges to fix and the PDAG under construction are not local variables of a loop over the targets and a work-list loop: not read")
+        return
     ok, why = False, "edge list not recognised"
     if first["iter"] == PI and len(names) == 1 and first["init"][names[0]] == ("list", ()):
         nx = first["next"][names[0]]
